@@ -79,18 +79,21 @@ add(Contract(
 
 add(Contract(
     PI + "tokenize", params={"self": "obj:ParserInline", "state": "obj:StateInline"}, props=["C01", "C20"],
+    modifies=["state.pos", "state.pending", "state.pendingLevel", "state.cache", "state.backticks", "state.backticksScanned", "state.delimiters", "state.linkLevel",
+              "state.tokens", "state.tokens_meta", "state._prev_delimiters"],
     requires=[("pos-range", "0 <= state.pos and state.pos <= state.posMax and state.posMax <= len(state.src)"), ("nest", "state.md.options.maxNesting >= 1"), POSMAX_TERM],
     at=[("call:rule", "rule-under-nesting-cap", "state.level < state.md.options.maxNesting")],
-    ensures=[("consumed", "state.pos >= state.posMax"), CACHE_MONO + (["C20"],)],
+    ensures=[("consumed", "state.pos >= state.posMax"), CACHE_MONO + (["C20"],), ("level", "state.level == old(state.level) and state.posMax == old(state.posMax)", ["C01", "C02"]),
+             ("cache-inv", "implies(old(forall(p, 0, len(state.src) + 1, implies(p in state.cache, state.cache[p] > p))), forall(p, 0, len(state.src) + 1, implies(p in state.cache, state.cache[p] > p)))", ["C20"])],
     loops={0: {"types": {"ok": "bool", "rule": "none"}, "let": {"P": "state.pos"},
                "inv": [("pos-lo", "0 <= state.pos"), ("end", "end == state.posMax and end <= len(state.src)"),
                        ("stale-ok", "state.level < maxNesting or not ok"), ("maxNesting", "maxNesting == state.md.options.maxNesting"),
-                       ("level", "state.level == old(state.level)"), ("rules", "len(rules) >= 1"), CACHE_MONO],
+                       ("level", "state.level == old(state.level)"), ("rules", "len(rules) >= 1"), CACHE_MONO, ("cache-inv", "implies(old(forall(p, 0, len(state.src) + 1, implies(p in state.cache, state.cache[p] > p))), forall(p, 0, len(state.src) + 1, implies(p in state.cache, state.cache[p] > p)))")],
                "dec": "end - state.pos"},
            1: {"types": {"rule": "none"},
                "inv": [("pos-same", "state.pos == P"), ("pos-hi", "0 <= P and P < end"), ("end", "end == state.posMax and end <= len(state.src)"),
                        ("nest", "state.level < maxNesting"), ("maxNesting", "maxNesting == state.md.options.maxNesting"), ("not-ok", "_it1 == 0 or not ok"),
-                       ("level", "state.level == old(state.level)"), CACHE_MONO],
+                       ("level", "state.level == old(state.level)"), CACHE_MONO, ("cache-inv", "implies(old(forall(p, 0, len(state.src) + 1, implies(p in state.cache, state.cache[p] > p))), forall(p, 0, len(state.src) + 1, implies(p in state.cache, state.cache[p] > p)))")],
                "dec": "len(rules) - _it1"}},
 ))
 
